@@ -95,11 +95,17 @@ type faultState struct {
 	fired  string
 	family string
 
-	failed bool                 // the Flush that just returned reported an injected fault
-	recs   []*faultRec          //
-	open   map[string]*faultRec // db -> failed Flush without a successful one since
-	imgWin map[int][]*faultRec  // image (crash.Point.Seq) -> fault windows it was taken in
-	imgIn  map[int]bool         // image taken inside the failing Flush after the fault
+	// faultAndRetry (composite operation): the shard its writes go to, the one Flush that gets a
+	// fault plan (others get none)
+	composite  bool
+	forceShard int
+	forceWhat  string
+	failed     bool                 // the Flush that just returned reported an injected fault
+	retrying   bool                 // the Flush in flight is the retry inside a fault-and-retry operation: crash images at nearly every seam
+	recs       []*faultRec          //
+	open       map[string]*faultRec // db -> failed Flush without a successful one since
+	imgWin     map[int][]*faultRec  // image (crash.Point.Seq) -> fault windows it was taken in
+	imgIn      map[int]bool         // image taken inside the failing Flush after the fault
 
 	// known finding sigRetryOrder (fault_regression_test.go)
 	curFam         string          // family of the last table-file operation of the Flush in flight
@@ -109,16 +115,27 @@ type faultState struct {
 
 func newFaultState(t *rapid.T) *faultState {
 	return &faultState{
-		rate: rapid.SampledFrom([]int{1, 2, 2, 4}).Draw(t, "faultRate"),
-		open: map[string]*faultRec{}, imgWin: map[int][]*faultRec{}, imgIn: map[int]bool{},
+		rate:       rapid.SampledFrom([]int{1, 2, 2, 4}).Draw(t, "faultRate"),
+		forceShard: -1,
+		open:       map[string]*faultRec{}, imgWin: map[int][]*faultRec{}, imgIn: map[int]bool{},
 		postingsFailed: map[string]bool{}, orderWindow: map[string]bool{},
 	}
 }
 
-// faultRowExtras: rows of fault histories bring a new field / a new tag key more often, so that
-// the schema family has something to write in most flush cycles.
+// faultRowExtras: rows of fault histories bring a new field / a new tag key / a further metric name
+// more often, so that every family has something to write in most flush cycles; 3 of 10 rows have no
+// tags.
 func (h *hist) faultRowExtras(label string, r *rowSpec) {
 	t := h.t
+	// more metric names (the metric dictionary and the postings get new entries in most cycles) and
+	// series without tags (a cycle in which a shard's forward / inverted stores freeze nothing while
+	// its postings do)
+	if rapid.SampledFrom(tenSlots).Draw(t, label+"metricVariant") < 3 {
+		r.Name += fmt.Sprintf(".x%d", rapid.IntRange(0, 3).Draw(t, label+"variant"))
+	}
+	if rapid.SampledFrom(tenSlots).Draw(t, label+"noTags") < 3 {
+		r.Tags = nil
+	}
 	if rapid.IntRange(0, 2).Draw(t, label+"freshField") == 0 {
 		h.fresh++
 		r.Fields = append(r.Fields, fmt.Sprintf("g%d", h.fresh))
@@ -130,8 +147,41 @@ func (h *hist) faultRowExtras(label string, r *rowSpec) {
 	}
 }
 
+// faultAndRetry is a composite operation: a few rows for one shard, a flush cycle in which ONE
+// drawn Flush (the metadata flush or that shard's index flush) gets a fault plan, a few more rows for
+// the shard (ingestion goes on), the next flush cycle of all shards (the retry, without a fault, crash
+// images at nearly every seam), recovery of the pending images. Small cycles: the stores of the
+// failed database freeze different things (some nothing), which is what the retry has to cope with.
+func (h *hist) faultAndRetry() {
+	f := h.flt
+	h.finishCycle()
+	f.composite, f.forceShard = true, rapid.IntRange(0, h.nIdx-1).Draw(h.t, "farShard")
+	defer func() { f.composite, f.forceShard, f.forceWhat, h.allShardsInCycle = false, -1, "", false }()
+	h.logf("fault-and-retry on shard %d ...", f.forceShard)
+	for i := rapid.IntRange(1, 3).Draw(h.t, "farRowsBefore"); i > 0; i-- {
+		h.write("")
+	}
+	f.forceWhat = fmt.Sprintf("idx%d", f.forceShard)
+	if rapid.IntRange(0, 2).Draw(h.t, "farMeta") == 0 {
+		f.forceWhat = "meta"
+	}
+	h.allShardsInCycle = true
+	h.flushStep()
+	h.finishCycle()
+	for i := rapid.IntRange(0, 3).Draw(h.t, "farRowsAfter"); i > 0; i-- {
+		h.write("")
+	}
+	f.forceWhat = ""
+	h.flushStep()
+	h.finishCycle()
+	h.crashCheck()
+	h.classes["fault-and-retry"]++
+}
+
 // faultActions: flush cycles, batches and reopens are drawn more often than in TestHistory.
-func (h *hist) faultActions(actions map[string]func(*rapid.T), _ func(func()) func(*rapid.T)) {
+func (h *hist) faultActions(actions map[string]func(*rapid.T), step func(func()) func(*rapid.T)) {
+	actions["faultAndRetry"] = step(h.faultAndRetry)
+	actions["faultAndRetry2"] = actions["faultAndRetry"]
 	actions["flushCycle2"] = actions["flushCycle"]
 	actions["flushCycle3"] = actions["flushCycle"]
 	actions["writeBatch2"] = actions["writeBatch"]
@@ -148,21 +198,34 @@ func (h *hist) armFault(what string) {
 	if f.postingsFailed[what] {
 		f.orderWindow[what] = true // the retry begins
 	}
+	f.retrying = f.composite && f.open[what] != nil
+	if f.retrying {
+		h.classes["retry-flush-with-dense-crash-images"]++
+	}
 	// (SampledFrom is close to uniform, IntRange prefers small values)
 	rate := f.rate
 	if what == "meta" {
 		rate = min(2*rate, 7) // a cycle has one metadata flush and up to three index flushes
 	}
-	if what == "compaction" || rapid.SampledFrom(tenSlots).Draw(h.t, "faultHere") < 10-rate {
+	switch {
+	case what == "compaction":
+		return
+	case f.composite:
+		if what != f.forceWhat {
+			return
+		}
+		f.forceWhat = ""
+	case rapid.SampledFrom(tenSlots).Draw(h.t, "faultHere") < 10-rate:
 		return
 	}
 	p := &faultPlan{Op: rapid.SampledFrom(faultOps).Draw(h.t, "faultOp")}
-	fams := idxFamilies
+	// the postings family is written first in an index flush: the other stores depend on it
+	fams := append([]string{"", "metric"}, idxFamilies...)
 	if what == "meta" {
-		fams = metaFamilies
+		fams = append([]string{""}, metaFamilies...)
 	}
 	if !strings.HasPrefix(p.Op, "manifest") {
-		p.Family = rapid.SampledFrom(append([]string{""}, fams...)).Draw(h.t, "faultFamily")
+		p.Family = rapid.SampledFrom(fams).Draw(h.t, "faultFamily")
 	}
 	switch {
 	case p.Op == "tableWrite":
@@ -317,6 +380,17 @@ func (h *hist) faultSuppressImage() bool {
 	}
 	h.classes["excluded_known"]++
 	return true
+}
+
+// faultRetryInFlight: the Flush in flight retries a failed one.
+func (h *hist) faultRetryInFlight() bool {
+	return h.flt != nil && h.flt.retrying && h.inFlush != "" && h.inFlush != "compaction"
+}
+
+// faultKeepImage: when the crash action recovers only a sample of the pending images, those taken
+// between a failed flush and its completed retry are dropped last.
+func (h *hist) faultKeepImage(p crash.Point) bool {
+	return h.flt != nil && (len(h.flt.imgWin[p.Seq]) > 0 || h.flt.imgIn[p.Seq])
 }
 
 func (h *hist) faultImageTaken(p crash.Point) {
